@@ -3,6 +3,9 @@ import MosnVerif.Lemmas.Downstream.Parked
 import MosnVerif.Lemmas.Downstream.Prov
 import MosnVerif.Lemmas.Downstream.Backoff9
 import MosnVerif.Lemmas.Downstream.Timer10
+import MosnVerif.Lemmas.Downstream.Budget10
+import MosnVerif.Lemmas.Downstream.TimerObj10
+import MosnVerif.Lemmas.Downstream.Window10
 /-!
 # C03 — every request ends exactly once, with one reply, in bounded time (property theorems only)
 
@@ -703,5 +706,81 @@ example : ((fun (s : S) => (s.gtGen, s.global, s.gtObj))
     (reach { hasData := true, retryOn := true, numRetries := 2 } 0 0
       ([.poolFail .connfail] ++ List.replicate 12 .work ++ [.upReset 1 .StreamConnectionFailed] ++ List.replicate 4 .work))) =
     (1, true, true) := by decide
+
+/-- **the label `gtInSetup` is the global timer callback run INSIDE the regenerated `setupRetry`** (window (a): between the
+compare-and-swap of `setupRetry` and `processError` detaching the marked request).  `Gen.ProxyBackoff.setupRetry o w1 w2` is the
+regenerated step program with the worker's two yield sites as interleaving points (`w1` after the mark, `w2` after the swing of
+`upstreamResponseReceived`); `gtCallback` is the regenerated callback of a timer that has fired.  For every state in which the
+worker calls `setupRetry` with the timer armed: run the callback at a site, finish `setupRetry`, then the rest of the worker's
+phase (`restOfPhase`: `upstreamReset` cleared, `processError` detaches the marked request and hands back `Retry`) — the state the
+worker goes to sleep in is the back-off state of the UN-interleaved run followed by the label `gtInSetup false` (site 1) resp.
+`gtInSetup true` (site 2), up to `normL`: the listener registration of the client stream that is gone (which nothing reads).
+At site 1 with the slot free the callback's own reset of the given-up request is covered for `setupRetry(true)` (retry after an
+upstream reset: the client stream is gone); with the slot taken (retry on a response status) the callback only records the expiry. -/
+theorem global_timeout_window_is_label (c : Cfg) (s : S) (eos e : Bool) (hc : s.cleaned = false) (he : s.globalExpired = false)
+    (hu : s.up.isSome = true) (hd : s.downReset = false) (hdi : s.direct = false) (hg : s.global = true)
+    (hrun : s.running = true) (hp : s.pass < Gen.ProxyPhase.loopBudget) :
+    ((s.urr = true ∨ (eos = true ∧ ∀ k, curStream s = some k → streamLive s k = false)) →
+      normL (restOfPhase c (Gen.ProxyBackoff.setupRetry (srOps c) (gtCallback c) id eos s).1 e) =
+        normL (gtInSetup (restOfPhase c (setupRetry c s eos).1 e) false)) ∧
+    ((∀ k, curStream (setupRetry c s eos).1 = some k → streamLive (setupRetry c s eos).1 k = false) →
+      normL (restOfPhase c (Gen.ProxyBackoff.setupRetry (srOps c) id (gtCallback c) eos s).1 e) =
+        normL (gtInSetup (restOfPhase c (setupRetry c s eos).1 e) true)) :=
+  ⟨gtInSetup_after_mark c s eos e hc he hu hd hdi hg hrun hp, gtInSetup_after_swing c s eos e hc he hu hd hdi hg hrun hp⟩
+
+/-- the two windows in closed form (no hypothesis on the client stream): after the swing the callback wins the slot, resets the
+given-up request once more and its `OnResetStream` is dropped; after the mark it wins only a free slot, and `setupRetry` frees
+the slot again -/
+theorem global_timeout_windows_closed_form (c : Cfg) (s : S) (eos : Bool) (hc : s.cleaned = false) (he : s.globalExpired = false)
+    (hu : s.up.isSome = true) :
+    (Gen.ProxyBackoff.setupRetry (srOps c) id (gtCallback c) eos s).1 =
+      resetUpstream c { (setupRetry c s eos).1 with global := false, globalExpired := true, urr := true } ∧
+    (Gen.ProxyBackoff.setupRetry (srOps c) (gtCallback c) id eos s).1 =
+      { (setupRetry c (if s.urr then s else resetUpstream c s) eos).1 with global := false, globalExpired := true } :=
+  ⟨setupRetry_window_after_swing c s eos hc he hu, setupRetry_window_after_mark c s eos hc he hu⟩
+
+/-- the state in which the worker handles the reset of attempt 0 (timer armed, slot free, client stream gone) -/
+def exWinCfg : Cfg := { retryOn := true, numRetries := 1 }
+def exWinState : S := reach exWinCfg 0 0 (List.replicate 12 .work ++ [.upReset 0 .StreamConnectionFailed])
+
+/-- non-vacuity: that state satisfies every hypothesis, and there the interleaved run and the label agree up to `normL` but NOT
+literally -/
+example :
+    (!exWinState.cleaned && !exWinState.globalExpired && exWinState.up.isSome && !exWinState.downReset && !exWinState.direct &&
+      exWinState.global && exWinState.running && exWinState.pass == 0 && !exWinState.urr &&
+      !(match curStream exWinState with | some k => streamLive exWinState k | none => false)) = true ∧
+    (restOfPhase exWinCfg (Gen.ProxyBackoff.setupRetry (srOps exWinCfg) id (gtCallback exWinCfg) true exWinState).1 true ==
+      gtInSetup (restOfPhase exWinCfg (setupRetry exWinCfg exWinState true).1 true) true) = false ∧
+    (normL (restOfPhase exWinCfg (Gen.ProxyBackoff.setupRetry (srOps exWinCfg) id (gtCallback exWinCfg) true exWinState).1 true) ==
+      normL (gtInSetup (restOfPhase exWinCfg (setupRetry exWinCfg exWinState true).1 true) true)) = true := by decide
+
+/-- **the machine's `s.responseTimer != nil` is the pointer field**: `doRetry` arms both timers only when no timer object exists.
+The machine reads that test as `hasTimerObj` (so that `inv_run` needs no fact about the pointer); on every schedule an armed
+global timer has an object and an object exists only after the request was sent, hence `hasTimerObj` equals the field `gtObj`
+(set where the timer is created — the regenerated arm site —, kept when the timer fires or is stopped, forgotten by `cleanUp`). -/
+theorem timer_object_is_pointer (c : Cfg) (ar aq : Nat) (l : List Label) :
+    hasTimerObj (reach c ar aq l) = (reach c ar aq l).gtObj ∧
+    ((reach c ar aq l).global = true → (reach c ar aq l).gtObj = true) ∧
+    ((reach c ar aq l).gtObj = true → (reach c ar aq l).reqSent = true) :=
+  ⟨hasTimerObj_eq c ar aq l, (timer_object_run c ar aq l).1, (timer_object_run c ar aq l).2⟩
+
+/-- **attempts_bounded** (on the shared machine, the back-off a state): on every schedule — whatever lands during the back-off
+sleeps, inside the retry set-up, on a streamed response — the `ConnectionPool.NewStream` calls of one request (admitted `un` and
+refused `uf`) are at most `1 + max 3 numRetries`: the first attempt, then one per unit of the retry budget `newRetryState`
+starts with (`Gen.ProxyRetry.retriesFloor`, raised to the route's `NumRetries`).  From the regenerated `retryState.retry`
+(every `ShouldRetry` takes a unit), `setupRetry` called only after `ShouldRetry`, `processError` handing back the phase `Retry`
+only for a marked request, and `doRetry` creating at most one attempt per wake-up (`Lemmas/Downstream/Budget10.lean`). -/
+theorem attempts_bounded (c : Cfg) (ar aq : Nat) (l : List Label) :
+    (att (reach c ar aq l).trace).length ≤ 1 + max Gen.ProxyRetry.retriesFloor c.numRetries ∧
+    (reach c ar aq l).streams.length = (att (reach c ar aq l).trace).length :=
+  ⟨attempts_le_budget c ar aq l, (binv_run c ar aq l).w.cnt.symm⟩
+
+set_option maxRecDepth 8192 in
+/-- non-vacuity: the bound is attained — every attempt reset by the connection, `numRetries` 1 (below the floor 3) and 5 -/
+example : (att (reach { retryOn := true, numRetries := 1 } 0 0 (List.replicate 12 .work ++
+    (List.range 6).flatMap (fun k => [.upReset k .StreamConnectionFailed, .work, .work, .work]))).trace).length = 4 := by decide
+set_option maxRecDepth 8192 in
+example : (att (reach { retryOn := true, numRetries := 5 } 0 0 (List.replicate 12 .work ++
+    (List.range 8).flatMap (fun k => [.upReset k .StreamConnectionFailed, .work, .work, .work]))).trace).length = 6 := by decide
 
 end MosnVerif.Props.C03
